@@ -77,7 +77,8 @@ class S:
                       (2, 'CUSTOM_FOO')):
             self.inv[(p, rc)] = w.inventory(p, rc)
         self.tr = {(1, T1): w.has_trait(1, T1), (2, T2): w.has_trait(2, T2)}
-        self.ag = {(1, 1): w.in_agg(1, 1), (1, 2): w.in_agg(1, 2)}
+        self.ag = {(1, 1): w.in_agg(1, 1), (1, 2): w.in_agg(1, 2),
+                   (2, 1): w.in_agg(2, 1), (2, 2): w.in_agg(2, 2)}
         conc = getattr(ctx, 'concrete', False)
         self.alloc = {}
         for c, p, rc in ((1, 1, 'VCPU'), (1, 2, 'VCPU'), (2, 1, 'VCPU'),
@@ -751,6 +752,24 @@ def w_put_aggregates(ctx, s):
                         back.json['resource_provider_generation'],
                         r.json['resource_provider_generation'],
                         'generation returned = generation read')
+        # the other provider keeps its memberships (some of them of the
+        # aggregates this request dropped) and its generation
+        for a in (1, 2):
+            rows = [x for x in post['resource_provider_aggregates']
+                    if x.vals['resource_provider_id'] == 2 and
+                    x.vals['aggregate_id'] == s.w.aggs[a]]
+            now = Or(*[x.present for x in rows])
+            bit = s.ag[(2, a)]
+            obligation(ctx, 'write-effect',
+                       zbool(Or(And(now, Not(bit)), And(bit, Not(now)))),
+                       'membership of provider 2 in aggregate %d changed by '
+                       'a PUT aggregates of provider 1' % a, sig='bystander')
+        other = app.call('GET', '/resource_providers/%s/aggregates' % U(2),
+                         version='1.36')
+        eq_or_violation(ctx, 'write-effect',
+                        other.json['resource_provider_generation'],
+                        s.w.prov[2]['generation'],
+                        'generation of the other provider')
     else:
         obligation(ctx, 'write-status', accept,
                    'PUT aggregates rejected (%d) with the current generation'
